@@ -253,6 +253,7 @@ class FSM(addons.AddonPersistence, block.SBlock):
         self._on_notrans = block.event_tuple(on_notrans)
         self._state: str|block._UndefType = block.UNDEF
         self._active_timer: asyncio.TimerHandle|None = None
+        self._timer_enabled = False     # timers may be started only between start() and stop()
         self._fsm_event_active = False
         # scheduled event in chained state transition, format: (event, data, newstate)
         self._next_event: tuple[str|block.EventType, Mapping, str]|None = None
@@ -321,13 +322,23 @@ class FSM(addons.AddonPersistence, block.SBlock):
         """Initialize the internal state."""
         self.event(Goto(value))
 
+    def start(self) -> None:
+        super().start()
+        self._timer_enabled = True
+
     def stop(self) -> None:
         """Cleanup."""
         self._stop_timer()
+        # events may still arrive during the cleanup (e.g. results of other blocks'
+        # stop_data); a timer started now would outlive the simulation
+        self._timer_enabled = False
         super().stop()
 
     def _set_timer(self, duration: float, timed_event: str|block.EventType) -> None:
         """Start the timer (low-level)."""
+        if not self._timer_enabled:
+            self.log_debug("timer: not started, the block is not running")
+            return
         self.log_debug("timer: %.3fs before %s", duration, timed_event)
         self._active_timer = asyncio.get_running_loop().call_later(
             duration, self.event, timed_event)
